@@ -214,6 +214,15 @@ func (e *explorer) evaluate(s Schedule, r *vrt.Result) {
 		r2 := e.run(s)
 		if r.End == "step-limit" || r2.End == "step-limit" {
 			// cut by the step / memory guard: not comparable
+		} else if r2.Hash == r.Hash && len(r2.Points) == len(r.Points) && r2.Outcome != r.Outcome {
+			// the same steps in the same order, but other data in the observable
+			// outcome: the code under test keeps state in package-level variables
+			// (a process-wide counter, a pool, a cache) which survives from one
+			// execution to the next - not a divergence of the schedule. Recorded;
+			// a violation that depends on such state still has to reproduce from
+			// its schedule to be reported.
+			st.Flags["outcome-depends-on-state-kept-across-executions"]++
+			st.Validated++
 		} else if r2.Hash != r.Hash || r2.Outcome != r.Outcome || len(r2.Points) != len(r.Points) {
 			e.engineError(fmt.Sprintf("nondeterministic replay of schedule %v: hash %x vs %x, outcome %q vs %q", s, r.Hash, r2.Hash, r.Outcome, r2.Outcome))
 			if dir := os.Getenv("VERIF_NONDET_DIR"); dir != "" {
